@@ -116,6 +116,22 @@ def validateDomainPart (ip : Bytes → Bool) (d : Bytes) : Bool :=
     let d' := if d.getLast? != some 46 then d ++ [46] else d
     domLoop d' { prev := 46, labelLen := 0, hasAN := false }
 
+/-- canonicalDomain: lower-case, keeping the case-sensitive `[IPv6:` tag of an IP literal -/
+def ipv6Open : Bytes := 91 :: ipv6Tag  -- "[IPv6:"
+
+def canonicalDomain (d : Bytes) : Bytes :=
+  if ipv6Open.isPrefixOf d then ipv6Open ++ lower (d.drop 6) else lower d
+
+/-- two consecutive periods somewhere in the list -/
+def hasDotDot : Bytes → Bool
+  | 46 :: 46 :: _ => true
+  | _ :: rest => hasDotDot rest
+  | [] => false
+
+/-- the name check of ExtractMailbox (local / full naming): non-empty dot-atom shape -/
+def nameShapeOk (l : Bytes) : Bool :=
+  !l.isEmpty && l.head? != some 46 && l.getLast? != some 46 && !hasDotDot l
+
 def extractDomainMailbox (ip : Bytes → Bool) (a : Bytes) : Option Bytes :=
   let ld : Option (Bytes × Bytes) :=
     if !a.isEmpty && a.head? == some 91 && a.getLast? == some 93 then some ([], a)
@@ -128,7 +144,7 @@ def extractDomainMailbox (ip : Bytes → Bool) (a : Bytes) : Option Bytes :=
     | none => none
     | some l =>
       let d := if d.isEmpty then l else d
-      if validateDomainPart ip d then some d else none
+      if validateDomainPart ip d then some (canonicalDomain d) else none
 
 def extractMailbox (ip : Bytes → Bool) (m : Naming) (a : Bytes) : Option Bytes :=
   match m with
@@ -140,9 +156,10 @@ def extractMailbox (ip : Bytes → Bool) (m : Naming) (a : Bytes) : Option Bytes
       match parseMailboxName l with
       | none => none
       | some l =>
-        if m == .localN then some l
+        if !nameShapeOk l then none
+        else if m == .localN then some l
         else if d.isEmpty then some l
-        else if validateDomainPart ip d then some (l ++ [64] ++ d) else none
+        else if validateDomainPart ip d then some (l ++ [64] ++ canonicalDomain d) else none
 
 /-- exported ParseEmailAddress: parse + domain validation -/
 def parseEmailAddressV (ip : Bytes → Bool) (a : Bytes) : Option (Bytes × Bytes) :=
